@@ -119,10 +119,30 @@ func checkRevComp(k *K, s []byte, full bool) {
 // checkCanonical applies the CanonicalSubsequences monitors for one (seq, k).
 func checkCanonical(k *K, s []byte, kk int) {
 	var items [][]byte
-	for kmer := range sequtil.CanonicalSubsequences(s, kk) {
+	theSeq := sequtil.CanonicalSubsequences(s, kk)
+	for kmer := range theSeq {
 		items = append(items, append([]byte{}, kmer...))
 		if len(items) > len(s)+2 {
 			break
+		}
+	}
+	// the same iterator value ranged over a second time gives the same items
+	if len(s) < 200 {
+		n2 := 0
+		for kmer := range theSeq {
+			if n2 >= len(items) || !bytes.Equal(kmer, items[n2]) {
+				k.Input("seq", s)
+				k.Input("k", kk)
+				k.Failf("canonical-reuse", "second range over one CanonicalSubsequences(%q,%d) value: item %d = %q differs from the first pass", s, kk, n2, kmer)
+				return
+			}
+			n2++
+		}
+		if n2 != len(items) {
+			k.Input("seq", s)
+			k.Input("k", kk)
+			k.Failf("canonical-reuse", "second range over one CanonicalSubsequences(%q,%d) value yields %d items, the first pass %d", s, kk, n2, len(items))
+			return
 		}
 	}
 	wantN := max(0, len(s)-kk+1)
@@ -300,6 +320,13 @@ func c12Random(c *Ctx) {
 			sequtil.ReverseComplementString(string(other))
 			if w := refRevComp(s); !bytes.Equal(heldRC, w) || heldStr != string(w) {
 				k.Failf("result-not-stable", "a ReverseComplement result changed after later calls: %q / %q, want %q", heldRC, heldStr, w)
+			}
+			// results are the caller's to overwrite
+			for j := range heldRC {
+				heldRC[j] = '#'
+			}
+			if g, w := sequtil.ReverseComplement(nil, s), refRevComp(s); !bytes.Equal(g, w) {
+				k.Failf("result-after-scribble", "after the caller overwrote an earlier result, ReverseComplement(%q) = %q, want %q", s, g, w)
 			}
 			k.Count("held_results_verified", 1)
 			ks := []int{1, 2, 3, 1 + r.IntN(32), len(s), len(s) + 1, len(s) + 2, max(1, len(s)-1)}
